@@ -24,7 +24,7 @@ import time
 VERIF = os.path.dirname(os.path.dirname(os.path.abspath(__file__)))
 
 
-def run_one(name, seed, tier, cpv_jobs):
+def run_one(name, seed, tier, cpv_jobs, replay_check=False):
     d = os.path.join(VERIF, "seeded", name)
     meta = json.load(open(os.path.join(d, "meta.json")))
     props = sorted({k.split("@")[0] for k, v in meta.get("checks", {}).items() if v.get("exit") == 1}) \
@@ -52,6 +52,19 @@ def run_one(name, seed, tier, cpv_jobs):
             detail = [l.strip() for l in c.stdout.splitlines() if l.startswith("  ") and "part " not in l and ":" in l]
             out["checks"][p] = {"exit": c.returncode, "wall_s": round(time.time() - t0, 1),
                                 "detail": (detail or [""])[0][:200]}
+            if replay_check and c.returncode == 1:
+                # every replay file named by a VIOLATION line must fail on the changed tree and pass on /repo
+                paths = [l.split("replay=", 1)[1].strip() for l in c.stdout.splitlines()
+                         if l.startswith("VIOLATION ") and "replay=" in l]
+                verdicts = []
+                for rp in paths[:2]:
+                    r1 = subprocess.run([os.path.join(VERIF, "vcheck"), p, "--replay", rp], cwd=VERIF, env=env,
+                                        capture_output=True, text=True, timeout=1800)
+                    r0 = subprocess.run([os.path.join(VERIF, "vcheck"), p, "--replay", rp], cwd=VERIF,
+                                        env=dict(env, CPV_REPO="/repo"), capture_output=True, text=True, timeout=1800)
+                    verdicts.append([rp, r1.returncode, r0.returncode])
+                out["checks"][p]["replay"] = verdicts
+                out["checks"][p]["replay_ok"] = bool(verdicts) and all(v[1] == 1 and v[2] == 0 for v in verdicts)
         return out
     finally:
         shutil.rmtree(tmp, ignore_errors=True)
@@ -65,6 +78,7 @@ def main():
     ap.add_argument("--cpv-jobs", type=int, default=4)
     ap.add_argument("--only", default=None)
     ap.add_argument("--names", default=None)
+    ap.add_argument("--replay-check", action="store_true")
     args = ap.parse_args()
     names = sorted(os.path.basename(os.path.dirname(p)) for p in glob.glob(os.path.join(VERIF, "seeded", "*", "meta.json")))
     if args.only:
@@ -74,7 +88,7 @@ def main():
     results = {}
     missed = []
     with concurrent.futures.ThreadPoolExecutor(args.jobs) as ex:
-        futs = {ex.submit(run_one, n, args.seed, args.tier, args.cpv_jobs): n for n in names}
+        futs = {ex.submit(run_one, n, args.seed, args.tier, args.cpv_jobs, args.replay_check): n for n in names}
         for f in concurrent.futures.as_completed(futs):
             n = futs[f]
             try:
@@ -85,7 +99,8 @@ def main():
             tags = []
             for p, c in r["checks"].items():
                 tag = {0: "MISSED", 1: "caught", 2: "HARNESS-ERROR"}.get(c["exit"], str(c["exit"]))
-                tags.append(f"{p}:{tag}({c['wall_s']}s)")
+                tags.append(f"{p}:{tag}({c['wall_s']}s)" + ("" if "replay_ok" not in c else
+                                                           " replay-ok" if c["replay_ok"] else f" REPLAY-BAD{c['replay']}"))
                 if c["exit"] != 1:
                     missed.append(f"{n}/{p}")
             print(n, r.get("error", ""), " ".join(tags), flush=True)
